@@ -289,6 +289,45 @@ def _run(pr: PropertyRun, mod) -> int:
     known = load_known_findings()
     violations: List[Dict] = []
     known_hits: List[Dict] = []
+    # repaired defects: the witness of every `fixed:` entry of this property is replayed on every run and must pass - a fixed entry
+    # suppresses nothing, and the violation is reported again if it ever returns (also inside the region of an open finding)
+    fixed_dir = os.path.join(VERIF, "findings", "fixed")
+    regressions = 0
+    for fn_ in sorted(os.listdir(fixed_dir)) if os.path.isdir(fixed_dir) else []:
+        if not (fn_.startswith(pid + "_") and fn_.endswith(".json")):
+            continue
+        from .replay import run_e2e, run_native
+        with open(os.path.join(fixed_dir, fn_)) as f:
+            wit = json.load(f)
+        regressions += 1
+        try:
+            if "scenario" in wit and "run" in wit:
+                r = run_e2e(pid, 0, 0, pr.repo, scenario=wit, cli=True)
+                failed, what = bool(r.get("failures")), [w for f2 in r.get("failures", []) for w in f2.get("what", [])]
+                desc = {"kind": "cli", "scenario": wit["scenario"], "run": wit["run"]}
+                err = r.get("error")
+            elif "txs" in wit:
+                r = run_e2e(pid, 0, 0, pr.repo, scenario=wit, cli=False)
+                failed, what = bool(r.get("failures")), [w for f2 in r.get("failures", []) for w in f2.get("what", [])]
+                desc = {"kind": "e2e", "scenario": wit}
+                err = r.get("error")
+            elif "desc" in wit:
+                r = run_native(pid, wit["desc"], pr.repo)
+                failed, what, desc, err = bool(r.get("reproduced")), [str(r.get("observed"))], wit["desc"], r.get("error")
+            else:
+                continue
+        except Exception as exc:
+            pr.engine_faults.append(f"replay of fixed witness {fn_} crashed: {exc}")
+            continue
+        if err:
+            pr.engine_faults.append(f"replay of fixed witness {fn_} crashed: {str(err)[-300:]}")
+        elif failed:
+            path = write_replay(pr, "regression_" + fn_[:-5], {"property": pid, "obligation": "regression:" + fn_, "note": "the witness of a repaired defect fails again",
+                                                               "what": what[:6], "replay": {"desc": desc, "reproduced": True}})
+            violations.append({"obligation": "regression:findings/fixed/" + fn_, "replay": path, "reproduced": True})
+    if regressions:
+        pr.bounded.append({"name": "fixed_witnesses", "label": "bounded", "bound": f"{regressions} witness(es) of repaired defects of this property replayed on the current tree",
+                           "evaluations": regressions, "failures": sum(1 for v in violations if str(v["obligation"]).startswith("regression:"))})
     # every listed finding of this property is replayed natively: it must still fail (otherwise it is stale and suppresses nothing)
     live = []
     for kf in known:
